@@ -123,7 +123,8 @@ impl RealVectorStateSpace {
         if fraction > 0.0 && fraction <= 1.0 {
             self.longest_valid_segment_fraction = fraction;
         } else if fraction <= 0.0 {
-            self.longest_valid_segment_fraction = 0.;
+            // A zero resolution would make every motion check run forever (distance / 0 steps):
+            // non-positive fractions are ignored and the current value is kept.
         } else {
             self.longest_valid_segment_fraction = 1.;
         }
